@@ -60,10 +60,17 @@ var effectFreePrefixes = []string{
 	"github.com/slackhq/nebula/logging.",
 }
 
+// individual pure functions of packages that also contain mutating ones
+var effectFreeExact = map[string]bool{"slices.Equal": true, "slices.Contains": true, "slices.Index": true, "slices.IndexFunc": true, "slices.ContainsFunc": true,
+	"bytes.Equal": true, "bytes.Compare": true, "bytes.HasPrefix": true, "sort.SearchInts": true, "maps.Keys": true}
+
 var effectFreeExcept = []string{"time.Sleep", "time.AfterFunc", "time.NewTimer", "time.NewTicker", "strings.(*Builder)", "net.Listen", "net.Dial", "time.(*Timer)", "time.(*Ticker)",
 	"net.(*", "fmt.Fp", "fmt.Fs", "fmt.Sscan", "fmt.Print"}
 
 func isEffectFree(key string) bool {
+	if effectFreeExact[key] {
+		return true
+	}
 	for _, e := range effectFreeExcept {
 		if strings.HasPrefix(key, e) {
 			return false
@@ -486,17 +493,43 @@ func initNetipModels() {
 // ---------- time ----------
 // time.Time is a signed 64-bit instant in nanoseconds; the zero Time is 0.
 
+// clockOf: the ghost clock of a state (the last instant returned by time.Now).
+func (x *Exec) clockOf(st *State) *Term {
+	if t, ok := st.ghost["$clock"]; ok {
+		return t
+	}
+	t := x.c.Var("clock0", SBV(64))
+	x.assumeRawClosed(x.c.And(x.c.BVCmp("bvsge", t, x.c.BV(0, 64)), x.c.BVCmp("bvsle", t, x.c.BV(1<<62, 64))))
+	st.ghost["$clock"] = t
+	return t
+}
+
 func initTimeModels() {
 	note := "time.Time modelled as a signed 64-bit nanosecond instant; Add/Sub do not saturate"
 	mk := func(f func(c *Ctx, m *mctx) *Term) *model {
 		return &model{note: note, fn: func(m *mctx) *Term { return f(m.fr.x.c, m) }}
 	}
-	models["time.Now"] = mk(func(c *Ctx, m *mctx) *Term { return c.Fresh("now", SBV(64)) })
+	models["time.Now"] = mk(func(c *Ctx, m *mctx) *Term {
+		// real time does not run backwards: each reading is >= the previous one (ghost clock)
+		x := m.fr.x
+		t := c.Fresh("now", SBV(64))
+		x.assume(m.g, c.And(c.BVCmp("bvsge", t, x.clockOf(m.s)), c.BVCmp("bvsle", t, c.BV(1<<62, 64))))
+		m.s.ghost["$clock"] = t
+		return t
+	})
 	models["time.(Time).Before"] = mk(func(c *Ctx, m *mctx) *Term { return c.BVCmp("bvslt", m.args[0], m.args[1]) })
 	models["time.(Time).After"] = mk(func(c *Ctx, m *mctx) *Term { return c.BVCmp("bvsgt", m.args[0], m.args[1]) })
 	models["time.(Time).Equal"] = mk(func(c *Ctx, m *mctx) *Term { return c.Eq(m.args[0], m.args[1]) })
 	models["time.(Time).IsZero"] = mk(func(c *Ctx, m *mctx) *Term { return c.Eq(m.args[0], c.BV(0, 64)) })
-	models["time.(Time).Sub"] = mk(func(c *Ctx, m *mctx) *Term { return c.BVBin("bvsub", m.args[0], m.args[1]) })
+	models["time.(Time).Sub"] = mk(func(c *Ctx, m *mctx) *Term {
+		// t.Sub(u) saturates at the largest/smallest Duration instead of wrapping
+		t, u := m.args[0], m.args[1]
+		d := c.BVBin("bvsub", t, u)
+		zero := c.BV(0, 64)
+		tneg, uneg, dneg := c.BVCmp("bvslt", t, zero), c.BVCmp("bvslt", u, zero), c.BVCmp("bvslt", d, zero)
+		ovf := c.And(c.Not(c.Eq(tneg, uneg)), c.Not(c.Eq(dneg, tneg)))
+		return c.Ite(ovf, c.Ite(tneg, c.BV(1<<63, 64), c.BV(1<<63-1, 64)), d)
+	})
 	models["time.(Time).Add"] = mk(func(c *Ctx, m *mctx) *Term { return c.BVBin("bvadd", m.args[0], m.args[1]) })
 	models["time.(Time).UnixNano"] = mk(func(c *Ctx, m *mctx) *Term { return c.UF("time_unixnano", SBV(64), m.args[0]) })
 	models["time.(Time).Unix"] = mk(func(c *Ctx, m *mctx) *Term { return c.UF("time_unix", SBV(64), m.args[0]) })
